@@ -862,6 +862,14 @@ package channel
 //@     invariant forall l int :: 0 <= l && l < $i ==> c[i][l] != nil && fresh(c[i][l]) && val(c[i][l]) == val(b[i][l]) - val(a[i][l])
 
 // Lookup of the sub-allocation of a sub-channel: the first entry with that id.
+// RemoveSubAlloc removes the first entry equal to the given one by an in-place shifting append: trusted frame (only the list of
+// locked sub-allocations changes; on success it is one entry shorter). Used by the honest withdrawal updaters of package client.
+//@ func (*Allocation).RemoveSubAlloc
+//@   trusted
+//@   requires a != nil
+//@   modifies a.Locked, a.Locked[*]
+//@   ensures result == nil ==> len(a.Locked) == old(len(a.Locked)) - 1
+
 //@ pred lockedHas(l []SubAlloc, id ID) = exists i int :: 0 <= i && i < len(l) && l[i].ID == id
 //@ func (Allocation).SubAlloc
 //@   ensures ok <==> lockedHas(a.Locked, subchannel)
